@@ -191,6 +191,14 @@ def cli_worker(kp, job):
             with open(p, 'w', encoding='utf-8', newline='') as f:
                 f.write(g.text)
             texts[rel] = g.text
+        # files the converter cannot convert (a cell the grammar rejects) beside the valid ones: they are skipped with a
+        # message, every other file of the tree is still converted
+        for rel in ('bad.krn', 'sub/bad.krn'):
+            p = os.path.join(tmp, 'tree', rel)
+            with open(p, 'w', encoding='utf-8', newline='') as f:
+                f.write('**kern\n*clefG2\n4c\nQQQ\n*-\n')
+            texts[rel] = '**kern\n*clefG2\n4c\nQQQ\n*-\n'
+        layout = ['bad.krn'] + layout + ['sub/bad.krn']
 
         def api_ekern(text):
             d, errs = kp.loads(text)
